@@ -74,6 +74,8 @@ def wrapper_function(p, ns):
 def callee_object(p, ns, key):
     if p.route == 'method':
         return getattr(ns['inst'], key)
+    if p.route == 'closure_stack' and key == list(p.callees)[0]:
+        return ns['stk_']       # the inner application of the shared pass-through
     return ns[key]
 
 
@@ -100,7 +102,10 @@ def expected_declared(p, ns):
                 cs.bind_partial(*([0] * c.n), **{name_of(k): 0 for k in c.names})
             except TypeError:
                 # the written call cannot succeed at all: 'incompatible callee'
-                if p.route in ('chain_kw', 'chain_pos'):
+                # (for the stacked pass-through the generator could not foresee the inner
+                # application's discovered signature: such programs are outside the generated domain)
+                if p.route in ('chain_kw', 'chain_pos') or (
+                        p.route == 'closure_stack' and c.callee == list(p.callees)[0]):
                     return None, plain      # which level falls back is not specified
                 return [plain], plain
             n, names = c.n, [name_of(k) for k in c.names]
